@@ -84,7 +84,7 @@ def check(res, tier, replay=None):
                        "(verdict, failing event, all model rows of thread.prv and cpu.prv) and vs an independent Python oracle "
                        "recomputing every row from the raw history. non-trivial = at least one event; distinct by script")
     prep = engine.prepare(res, drivers=("drv_emu",))
-    proved = vcommon.prove(res, "C08")
+    proved = vcommon.prove(res, ["C08Stack", "C08"])
     found = False
     if prep.bdir and prep.driver_ok:
         r = vcommon.rng("c08")
